@@ -311,6 +311,17 @@ type kv struct {
 	features []b6.FeatureID // features in this bucket, if the values are Identifiable
 }
 
+// hashable returns true if v can be used as the key of a map.
+func hashable(v interface{}) (ok bool) {
+	defer func() {
+		if recover() != nil {
+			ok = false
+		}
+	}()
+	_ = map[interface{}]struct{}{v: {}}
+	return true
+}
+
 func countValues(c b6.UntypedCollection) ([]*kv, error) {
 	m := make(map[interface{}]*kv)
 	kvs := make([]*kv, 0)
@@ -325,6 +336,9 @@ func countValues(c b6.UntypedCollection) ([]*kv, error) {
 			break
 		}
 
+		if !hashable(i.Value()) {
+			return nil, fmt.Errorf("can't count values of type %T", i.Value())
+		}
 		var e *kv
 		if e, ok = m[i.Value()]; ok {
 			e.value++
